@@ -155,15 +155,18 @@ def oracle(ctx):
                 continue
             text = e2e.strip_header(services[sname])
             secs, err = e2e.line_reader(text)
-            want = [(sec, r[2][sec]) for sec in r[3]]
-            if err or [(a, b) for a, b in secs] != want:
+            def cx(entries):
+                # the order of option groups derived from name=value keys is unspecified (HashMap) and differs between runs
+                return [(k, canon.canon_exec(v) if k.startswith('Exec') else v) for k, v in entries]
+            want = [(sec, cx(r[2][sec])) for sec in r[3]]
+            if err or [(a, cx(b)) for a, b in secs] != want:
                 res.oracle_failures.append(dict(op=op, input=group[n], impl_output=text,
                                                 oracle_expectation=f'one line per entry, exactly the entries the generator produced {want}; line reader: {err or secs}'))
                 continue
             # the repository's own reader
             back = ctx.impl(['parse\t' + hx(text)])[0]
             rb = canon.parse_convert('ok svc x ' + back[3:])[0] if back.startswith('ok') else None
-            got = [(sec, rb[2][sec]) for sec in rb[3]] if rb else None
+            got = [(sec, cx(rb[2][sec])) for sec in rb[3]] if rb else None
             if got != want:
                 if got is not None and len(got) == len(want) and all(g[0] == w[0] and kf_c06_1(g[1], w[1]) for g, w in zip(got, want)):
                     if 'KF-C06-1' in known:
